@@ -411,6 +411,7 @@ int main(int argc, char **argv)
 		make_inputs(); mode_cold(); return v_finish();
 	}
 	make_inputs();
+	cpusim_no_interpose = strncmp(vopt.mode, "prefill", 7) != 0;   /* the slot thunks keep a process-wide shadow stack: single-threaded modes only */
 	if (!strncmp(vopt.mode, "prefill:", 8) && V_NDISPATCHED > 0) cpusim_init();
 	if (!strcmp(vopt.mode, "taint")) mode_taint(); else if (!strncmp(vopt.mode, "ro", 2)) mode_threads(1); else if (!strcmp(vopt.mode, "threads")) mode_threads(0); else mode_prefill();
 	return v_finish();
